@@ -90,7 +90,13 @@ func BounceBetween(prob float64) func(e *core.Engine, rng *rand.Rand, blockNo in
 // reaches only once in as many crashes as a block has scheduling sites.
 func BounceVictimBetween(prob float64) func(e *core.Engine, rng *rand.Rand, blockNo int) []*core.Step {
 	return func(e *core.Engine, rng *rand.Rand, blockNo int) []*core.Step {
-		if blockNo == 0 || rng.Float64() >= prob {
+		// right after a block whose block-level hooks did something visible (validator updates, Begin/EndBlock
+		// events) the restart is four times as likely: that is where work may be queued in memory for the next block
+		p := prob
+		if att := e.C.Ref().Tr.Committed(e.C.Height()); att != nil && (att.ValUpdates != "" || (att.BlockEvents != "begin[] end[]" && att.BlockEvents != "begin[]")) {
+			p = prob * 4
+		}
+		if blockNo == 0 || rng.Float64() >= p {
 			return nil
 		}
 		var live []int
